@@ -1,6 +1,7 @@
 package hx
 
 import (
+	"strings"
 	"fmt"
 	"math"
 	"sort"
@@ -36,7 +37,13 @@ func I32(i int32) Val      { return Val{K: "int32", S: strconv.FormatInt(int64(i
 func Int(i int) Val        { return Val{K: "int", S: strconv.FormatInt(int64(i), 10)} }
 func F64(f float64) Val    { return Val{K: "float64", S: strconv.FormatFloat(f, 'g', -1, 64)} }
 func F32(f float32) Val    { return Val{K: "float32", S: strconv.FormatFloat(float64(f), 'g', -1, 32)} }
-func Time(t time.Time) Val { return Val{K: "time", S: t.Format(time.RFC3339Nano)} }
+// Time: a year RFC 3339 can not write (beyond 9999, before 0) is kept as "unix:<seconds>:<nanoseconds>".
+func Time(t time.Time) Val {
+	if y := t.UTC().Year(); y < 0 || y > 9999 {
+		return Val{K: "time", S: fmt.Sprintf("unix:%d:%d", t.Unix(), t.Nanosecond())}
+	}
+	return Val{K: "time", S: t.Format(time.RFC3339Nano)}
+}
 func Ref(id int) Val       { return Val{K: "ref", S: strconv.Itoa(id)} }
 func List(vs ...Val) Val {
 	if vs == nil {
@@ -123,6 +130,11 @@ func (v Val) Go() interface{} {
 		f, _ := strconv.ParseFloat(v.S, 64)
 		return f
 	case "time":
+		if strings.HasPrefix(v.S, "unix:") {
+			var sec, nsec int64
+			_, _ = fmt.Sscanf(v.S, "unix:%d:%d", &sec, &nsec)
+			return time.Unix(sec, nsec).UTC()
+		}
 		t, _ := time.Parse(time.RFC3339Nano, v.S)
 		return t
 	case "list":
